@@ -146,7 +146,11 @@ def run(chk):
                     bad = [safety.classify(x) for x in (b0, bd, bu) if safety.classify(x)][0]
                     chk.violation(bad[0], "%s on %s" % (bad[1], tl), dict(case, chars=chars))
                     continue
-                sig = lambda x: (x.ret, x.inlen, x.outlen, tuple(x.out[:max(x.outlen, 0)]))
+                if l2[2 * j].startswith("X B 0 0 0"):
+                    # lou_charToDots itself failed (the table does not compile): nothing to compare
+                    chk.tally("back_comparison_skipped_no_dots_image")
+                    continue
+                sig = lambda x: (x.ret, x.inlen, x.outlen, tuple(x.out[:max(x.outlen, 0)])) if x.ret == 1 else (x.ret,)
                 c2 = dict(table_list=tl, characters=chars, outlen=ol, mode=bo, case_lines=[blines[3 * j], l2[2 * j], l2[2 * j + 1]],
                           impl=[b0.raw, bd.raw, bu.raw])
                 if sig(b0) != sig(bd):
